@@ -11,7 +11,8 @@ W1  every Consensus built by an algorithm carries the method's own dataset and s
 S2  BioConsert initial score: `_bio_consert` abstractly evaluated on all dense vectors (n<=3, pairs; some n=4) with a
     symbolic flattened cost matrix: score = sum over pairs a<b of the cost slot of their relation (row-major strides of
     the (n,n,3) matrix) + the local search's delta; each row is handed to the search and written back in place.
-S3  the local search returns the sum of the accepted deltas (shared with C08).
+S3  the local search returns the sum of the accepted test values, each of which is the definitional delta of the move
+    that is applied (shared with C08: S3, L5, L7).
 S4  PuLP: objective coefficients are slot 0 of (i,j) for x_i_j and slot 2 for t_i_j (see C05/X3) and the stored
     value is the objective's value.
 S4b an externally computed value that may be None is stored only under an `is not None` guard.
@@ -126,9 +127,9 @@ def run(ctx) -> Result:
     res.rule("S0", "every producer of KEMENY_SCORE is an analysed one (or stores a score computed by the scoring "
                    "routine for a returned ranking against the caller's dataset)", 5)
     res.rule("S1", "lazy score path: default, computed iff missing, from ranking[0] with own dataset and scheme", 5)
-    res.rule("W1", "every Consensus built by an algorithm carries the caller's dataset and scheme", 7)
+    res.rule("W1", "every Consensus built by an algorithm carries the caller's dataset and scheme", 3)
     res.rule("S2", "BioConsert initial score table and flattened strides (symbolic cost matrix)", 3)
-    res.rule("S3", "local search returns the sum of accepted deltas", 2)
+    res.rule("S3", "local search: returned delta = sum of accepted test values = definitional deltas of the moves applied", 10)
     res.rule("S4b", "possibly-None external values are stored only under an `is not None` guard", 1)
     res.rule("S6", "BioConsert reports the minimum final score and returns exactly the rows reaching it", 3)
 
@@ -152,7 +153,14 @@ def run(ctx) -> Result:
     _check_initial(res, proj, ctx.thorough)
     # ------------------------------------------------------------------ S3
     from . import C08
-    C08.fill_result(res, proj, False, only=["S3"])
+    # the book-kept score is the start score plus the accepted test values: it is the score of the ranking reached only if
+    # each test value is the definitional delta of its move (C08/L5) and the move applied is that move (C08/L7)
+    sub = Result("C04")
+    C08.fill_result(sub, proj, False, only=["S3", "L5", "L7"])
+    for o in sub.obligations:
+        o.rule = "S3"
+        res.obligations.append(o)
+    res.functions |= sub.functions
     # ------------------------------------------------------------------ S4b
     _check_optional(res, proj, prods)
     # ------------------------------------------------------------------ S6
@@ -335,6 +343,9 @@ def check_bioconsert_selection(res: Result, proj: Project, rule: str):
          [200008.0, 200009.0, 200010.5], False, [[{"C"}, {"A", "B"}]]),
         ("near-minimum-at-most-one", [[0, 1, 1], [1, 0, 0], [0, 0, 0]], [[0, 1, 1], [1, 0, 0], [2, 0, 1]],
          [1.0, 1.000008, 3.0], True, None),
+        # scores are real numbers: three values inside one unit interval
+        ("fractional-scores", [[0, 1, 1], [1, 0, 0], [0, 0, 0]], [[0, 1, 1], [1, 0, 0], [2, 0, 1]],
+         [2.5, 2.25, 2.75], False, [[{"A", "B"}, {"C"}]]),
     ]
     for label, dep, fin, scores, amo, want in cases:
         ret, cap, log, ds = bioc.eval_compute(proj, sc, dep, fin, scores, amo)
